@@ -71,6 +71,26 @@ def soup(rnd):
     return "".join(out)
 
 
+def numlit_inputs():
+    """number-literal-shaped words: mantissas x exponent markers x signs x exponent digit strings at the boundaries of every integer
+    width a number parser may keep an exponent or a scale in (and of Decimal's 28/29 digits), alone and inside small programs"""
+    mants = ["1", "0", "1.5", "0.25", "10", "1.", ".5", "0.0000000000000000000000000001", "79228162514264337593543950335", "7.9228162514264337593543950335", "00", "1.50"]
+    bounds = [0, 1, 2, 3, 27, 28, 29, 30, 38, 39, 127, 128, 255, 256, 308, 309, 32767, 32768, 65535, 65536, 2147483647, 2147483648, 4294967293, 4294967294, 4294967295, 4294967296,
+              4294967297, 9223372036854775807, 9223372036854775808, 18446744073709551615, 18446744073709551616, 10 ** 30, 10 ** 40]
+    out = []
+    for m in mants:
+        for e in ("e", "E"):
+            for sg in ("", "+", "-"):
+                for b in bounds:
+                    out.append("%s%s%s%d" % (m, e, sg, b))
+    base = list(out)
+    for i, w in enumerate(base):
+        if i % 7 == 0:
+            out.append(["1 + %s", "f(%s)", "- %s", "[%s]", "x = %s; x", "%s.5", "%s e1", "%s % 3", "'a' + %s"][i // 7 % 9].replace("%s", w))
+    out += ["1e", "1e+", "1e-", "1ee5", "1e5e5", "0e.3", "1e1.5", "1.e5", "1_000", "0x10", "1e-0", "1E", "9" * 400, "0." + "0" * 400 + "1", "1" + "0" * 400 + "e-400", "1e" + "9" * 400, "1e-" + "9" * 400]
+    return out
+
+
 def corruptions(rnd, s):
     out = []
     for _ in range(3):
@@ -184,10 +204,10 @@ def run_shard(desc):
                 part["violations"].append({"sig": [kind_, "arith"], "what": detail, "replay": None})
             else:
                 part["inconclusive"].append("%s: %s" % (kind_, detail))
-    elif kind == "soup":
+    elif kind in ("soup", "numlit"):
         tg = gen.TreeGen(rnd)
-        inputs = []
-        for _ in range(arg):
+        inputs = [x for i, x in enumerate(numlit_inputs()) if i % nshards == si % nshards] if kind == "numlit" else []
+        for _ in range(arg if kind == "soup" else 0):
             if rnd.random() < 0.5:
                 inputs.append(soup(rnd))
             else:
@@ -198,13 +218,13 @@ def run_shard(desc):
         for s in inputs:
             steps.append({"op": "exec", "ctx": 0, "text": s, "want": "ed", "nosnap": True})
             steps.append({"op": "tokenize", "text": s})
-        recs, events, _ = common.run_batch(steps, wd, "soup-%d" % si, profile, timeout=1200)
+        recs, events, _ = common.run_batch(steps, wd, "%s-%d" % (kind, si), profile, timeout=1200)
         for i, s in enumerate(inputs):
             r, tk = recs[1 + 2 * i], recs[2 + 2 * i]
             if r is None:
                 continue
             part["evaluations"] += 1
-            C["soup"] = C.get("soup", 0) + 1
+            C[kind] = C.get(kind, 0) + 1
             pan = None
             for key, phase in (("ppanic", "parse"), ("expr_panic", "expr"), ("desc_panic", "describe")):
                 if key in r:
@@ -216,7 +236,7 @@ def run_shard(desc):
             if pan:
                 part["violations"].append(viol_from_record({"viol": "panic:" + pan[0], "input": s, "detail": "%s @ %s" % (pan[1].get("panic"), pan[1].get("loc"))}, "soup"))
             else:
-                part["classes"].add("soup:len%d:%s" % (min(len(s) // 40, 10), r.get("p")))
+                part["classes"].add("%s:len%d:%s" % (kind, min(len(s) // 40, 10), r.get("p")))
                 if len(part["samples"]) < 1:
                     part["samples"].append({"workload": "soup/corruption", "input": s[:120], "outcome": r.get("p")})
         for kind_, detail, k in events:
@@ -379,6 +399,7 @@ def run(rep, tier):
     ns = 16000 if tier == "quick" else 400000
     per = 1000 if tier == "quick" else 12500
     shards += [("soup", i, 0, per, "release" if i % 2 else "verifdbg") for i in range(ns // per)]
+    shards += [("numlit", i, 2, 0, "release" if i >= 2 else "verifdbg") for i in range(4)]
     rungs = [10, 100, 1000, 3000, 40000] if tier == "quick" else [10, 100, 1000, 3000, 10000, 20000, 40000, 100000, 1000000]
     for fam in FAMILIES:
         shards.append(("ladder", 0, 0, (fam, rungs), "verifdbg"))
